@@ -66,8 +66,45 @@ def run(ctx):
         ctx.sample({"fault": c["fault"], "options": c["cfg"], "document": rb.render_doc(rb.faulted(c["doc"], c["fault"], c["evs"], c["m"]), 0),
                     "spec_outcome": [c["st"], c["err"]]})
     ctx.extra["structural_fault_cases"] = len(cases)
+    typed_anytype_faults(ctx)
     byte_level(ctx)
     json_faults(ctx, cases)
+
+
+def typed_anytype_faults(ctx):
+    """xs:anyType elements and wildcard children that announce an XSD datatype through xsi:type and then carry text
+    that is NOT in its lexical space (also empty / nil): an instance (value kept as given) or a documented error."""
+    from xsdata.formats.dataclass.context import XmlContext
+    from xsdata.formats.dataclass.parsers import XmlParser
+    from xsdata.formats.dataclass.parsers.config import ParserConfig
+
+    from .. import handler_bind as hb
+    from ..poly_models import AnyHolder, WildOther
+
+    xs = 'xmlns:xs="http://www.w3.org/2001/XMLSchema" xmlns:xsi="http://www.w3.org/2001/XMLSchema-instance"'
+    types = ["hexBinary", "base64Binary", "int", "boolean", "decimal", "float", "double", "date", "dateTime", "time", "duration", "gYear", "gMonthDay",
+             "QName", "anyURI", "NMTOKENS", "string", "unknownType"]
+    bads = ["zz", "", " ", "1 2", "--", "p:q", "0x", "\u00e9"]
+    xctx = XmlContext()
+    n = 0
+    for tp in types:
+        for bad in bads:
+            for nil in ("", ' xsi:nil="true"'):
+                docs = [(f'<AnyHolder {xs}><v xsi:type="xs:{tp}"{nil}>{bad}</v><w xsi:type="xs:{tp}">{bad}</w></AnyHolder>', AnyHolder),
+                        (f'<w:WildOther xmlns:w="urn:wild" xmlns:e="urn:ext" {xs}><e:ext xsi:type="xs:{tp}"{nil}>{bad}</e:ext></w:WildOther>', WildOther)]
+                for text, clazz in docs:
+                    for h in ("native", "lxml"):
+                        for strict in (False, True):
+                            n += 1
+                            ctx.case(("typed-anytype", tp, bad, nil, clazz.__name__, h, strict))
+                            try:
+                                out = ("ok", XmlParser(context=xctx, handler=hb.HANDLERS[h], config=ParserConfig(fail_on_converter_warnings=strict)).from_string(text, clazz))
+                            except Exception as ex:  # noqa: BLE001
+                                out = ("exc", ex)
+                            why = outcome_ok(out, clazz)
+                            if why:
+                                ctx.violation(f"xsi:type=xs:{tp} with text {bad!r} ({h}, {'strict' if strict else 'lenient'}): {why}", {"text": text, "handler": h})
+    ctx.extra["typed_anytype_cases"] = n
 
 
 def byte_level(ctx):
